@@ -759,6 +759,21 @@ def only_cfg_attr_names_further_files(ctx, rid):
                     for sw, tt, ff in bool_branches(f, g.dest[0]):
                         if tt is not None and edge_dominates(f, (sw, tt), c.bb):
                             ok = True
+            if not ok and len(c.args) > 1 and c.args[1][0] != "k":
+                # the attributes may have been selected beforehand: `.filter(|attr| attr.has_name(sym::cfg_attr))` on the way
+                for fc in f.derived_from(c.args[1][1][0])["calls"]:
+                    if not fc.name.endswith("Iterator::filter"):
+                        continue
+                    for gid in fc.refs:
+                        g = p.fns.get(gid)
+                        if g is None:
+                            continue
+                        for hn in g.derived_from(0)["calls"]:
+                            if hn.name.endswith("::has_name") and len(hn.args) > 1:
+                                a = hn.args[1]
+                                named = a[2].get("named") if a[0] == "k" and isinstance(a[2], dict) else operand_origin_named(g, a)
+                                if (named or "").endswith("sym::cfg_attr"):
+                                    ok = True
             r.instance(rid, "%s starts the path collector" % short(f.root or f.id), "ok" if ok else "violation", c.loc(),
                        "under has_name(cfg_attr): %s" % ok)
             if not ok:
